@@ -15,12 +15,13 @@ Variable midcheck : bool.
 Variable postcopy : bool.
 Variable recheck : bool.
 Variable freshrule : bool.
+Variable reachrule : bool.
 
 Local Notation state := (state data).
 Local Notation restoreL := (restore data zero lock).
 Local Notation txs_ok := (txs_ok data lock).
 Local Notation tx_ok := (tx_ok data lock).
-Local Notation step := (step data lock midcheck postcopy recheck freshrule).
+Local Notation step := (step data lock midcheck postcopy recheck freshrule reachrule).
 Local Notation label_ok := (label_ok data lock).
 
 Ltac simp := cbn -[restore flen apply ltx_snapshot ltx_incremental view dbfile firstn skipn].
@@ -284,7 +285,7 @@ Proof.
     + simp. apply acks_after_write. exact H8.
 Qed.
 
-Lemma verify_incrat s : verify data freshrule s = VIncrAt -> l0 data s <> [] /\ cgen data s = gen data s.
+Lemma verify_incrat s : verify data freshrule reachrule s = VIncrAt -> l0 data s <> [] /\ cgen data s = gen data s.
 Proof.
   unfold verify. destruct (l0 data s) eqn:El; [discriminate|].
   intros H. split; [discriminate|].
@@ -295,12 +296,12 @@ Proof.
   destruct (cfo data s =? 1); [discriminate|].
   destruct (tag_at data (phys data s) (cfo data s - 1)); [|discriminate].
   destruct (negb (n =? cgen data s)); [discriminate|]. cbn in H.
-  destruct (freshrule && (lastoff data s =? 0)); [discriminate|].
+  destruct (freshrule && (if reachrule then negb (reached data s) else lastoff data s =? 0)); [discriminate|].
   destruct (detect_full data (phys data s) (gen data s) (cgen data s)); discriminate.
 Qed.
 
 Lemma verify_incrhdr s cl :
-  verify data freshrule s = VIncrHdr cl ->
+  verify data freshrule reachrule s = VIncrHdr cl ->
   l0 data s <> [] /\ (length (phys data s) < cfo data s \/ cgen data s <> gen data s).
 Proof.
   unfold verify. destruct (l0 data s) eqn:El; [discriminate|].
@@ -315,13 +316,13 @@ Proof.
   destruct (negb (n =? cgen data s)); discriminate.
 Qed.
 
-Lemma inv_do_sync s k s' : inv s -> do_sync data lock freshrule s k = Some s' -> inv s'.
+Lemma inv_do_sync s k s' : inv s -> do_sync data lock freshrule reachrule s k = Some s' -> inv s'.
 Proof.
   intros H. unfold do_sync.
   destruct (opened data s); cbn [negb]; [|discriminate].
   destruct (phys data s) as [|p0 pr] eqn:Ep; [discriminate|].
   assert (Hp : phys data s <> []) by (rewrite Ep; discriminate).
-  destruct (verify data freshrule s) as [| |cl] eqn:Ev.
+  destruct (verify data freshrule reachrule s) as [| |cl] eqn:Ev.
   - intros E. inversion E; subst. apply inv_snapshot; assumption.
   - destruct (idx data (txs data s) (cfo data s)) as [c|] eqn:Ei; [|discriminate].
     intros E. eapply inv_incr; [exact H|exact E|].
@@ -354,14 +355,14 @@ Proof.
     inversion E; subst. apply inv_set_openmark, inv_set_mark, inv_set_opened. exact H.
   - destruct (pc data s); try discriminate.
     + eapply inv_do_sync; eauto.
-    + destruct (do_sync data lock freshrule s k) eqn:Ed; [|discriminate]. inversion E; subst.
+    + destruct (do_sync data lock freshrule reachrule s k) eqn:Ed; [|discriminate]. inversion E; subst.
       apply inv_set_pc. eapply inv_do_sync; eauto.
-    + destruct (do_sync data lock freshrule s k) eqn:Ed; [|discriminate]. inversion E; subst.
+    + destruct (do_sync data lock freshrule reachrule s k) eqn:Ed; [|discriminate]. inversion E; subst.
       apply inv_set_pc. eapply inv_do_sync; eauto.
     + destruct (needs_post postcopy m rb); [|discriminate].
-      destruct (do_sync data lock freshrule s k) eqn:Ed; [|discriminate]. inversion E; subst.
+      destruct (do_sync data lock freshrule reachrule s k) eqn:Ed; [|discriminate]. inversion E; subst.
       apply inv_set_pc. eapply inv_do_sync; eauto.
-    + destruct (do_sync data lock freshrule s k) eqn:Ed; [|discriminate]. inversion E; subst.
+    + destruct (do_sync data lock freshrule reachrule s k) eqn:Ed; [|discriminate]. inversion E; subst.
       apply inv_set_pc. eapply inv_do_sync; eauto.
   - destruct (pc data s); try discriminate. destruct (l0 data s) eqn:El; [discriminate|].
     destruct ((cgen data s =? gen data s) && (cfo data s =? flen data (txs data s))) eqn:Eg; [|discriminate].
@@ -414,6 +415,8 @@ Proof.
     inversion E; subst. apply inv_set_snap. exact H.
   - destruct (snap data s) as [[[[p we] sc] sg]|]; [|discriminate]. destruct (phys data s); [discriminate|].
     destruct (opened data s); [|discriminate].
+    match type of E with (if ?c then _ else _) = _ => destruct c end.
+    { inversion E; subst. apply inv_set_snap. exact H. }
     destruct (snap_idx data (txs data s) we); [|discriminate].
     inversion E; subst. apply inv_add_snap, inv_set_snap. exact H.
   - destruct (pc data s); try discriminate. inversion E; subst. apply inv_set_pc. exact H.
